@@ -40,14 +40,19 @@ pub struct Case {
     /// the contract store is sloppy: it lists every credential of the RP whatever ids are asked for
     #[serde(default)]
     pub sloppy: bool,
+    /// time passes: 0 no; k = the user step suspends once and, while it is pending, the clock of the
+    /// thread (virtual, core/clock.rs) advances by SLOW_SECS[k-1] - a user who takes their time
+    #[serde(default)]
+    pub slow: u8,
 }
+pub const SLOW_SECS: [u64; 4] = [11, 31, 3601, 90_000];
 
 const RP: &str = "example.com";
 
 pub fn cases(tier: Tier) -> Vec<Case> {
     let mut v = vec![];
     for c in super::c04::cases() {
-        if c.level != 0 || c.arc_mutex || c.ext || c.wire != 0 || c.flip {
+        if c.level != 0 || c.arc_mutex || c.ext != 0 || c.wire != 0 || c.flip {
             continue;
         }
         // quick: the presence capability only shows in get_info; keep one value for the ceremonies
@@ -61,29 +66,35 @@ pub fn cases(tier: Tier) -> Vec<Case> {
                         continue;
                     }
                     let api = if c.op == Op::Make { "make_credential" } else { "get_assertion" };
-                    v.push(Case { api: api.into(), cfg: c.clone(), content, memory_store, prf, unknown_type: false, empty_list: false, fault: 0, big: 0, sloppy: false });
+                    v.push(Case { api: api.into(), cfg: c.clone(), content, memory_store, prf, unknown_type: false, empty_list: false, fault: 0, big: 0, sloppy: false, slow: 0 });
                     // store failures with every status value of the menu, for the configurations in
                     // which the user consents and a matching credential exists / none is excluded
                     if !memory_store && !prf && c.outcome == 3 && c.cap == 2 && !c.pin && c.up && matches!(content, Content::MatchViaList | Content::NoMatch) {
                         for fault in 1..=21u8 {
-                            v.push(Case { api: api.into(), cfg: c.clone(), content, memory_store, prf, unknown_type: false, empty_list: false, fault, big: 0, sloppy: false });
+                            v.push(Case { api: api.into(), cfg: c.clone(), content, memory_store, prf, unknown_type: false, empty_list: false, fault, big: 0, sloppy: false, slow: 0 });
                         }
                     }
                     // a store that lists more than was asked for
                     if !memory_store && !prf && matches!(content, Content::MatchViaList | Content::TwoViaList | Content::OtherRpOnly) {
-                        v.push(Case { api: api.into(), cfg: c.clone(), content, memory_store, prf, unknown_type: false, empty_list: false, fault: 0, big: 0, sloppy: true });
+                        v.push(Case { api: api.into(), cfg: c.clone(), content, memory_store, prf, unknown_type: false, empty_list: false, fault: 0, big: 0, sloppy: true, slow: 0 });
+                    }
+                    // a slow user: the clock advances while the user step is pending
+                    if !memory_store && c.outcome == 3 && c.cap == 2 && !c.pin && c.up && matches!(content, Content::MatchViaList | Content::MatchNoList | Content::NoMatch) {
+                        for slow in 1..=SLOW_SECS.len() as u8 {
+                            v.push(Case { api: api.into(), cfg: c.clone(), content, memory_store, prf, unknown_type: false, empty_list: false, fault: 0, big: 0, sloppy: false, slow });
+                        }
                     }
                     // large user handles / ids: the response grows beyond 1 KiB and 4 KiB
                     if !prf && c.outcome == 3 && c.cap == 2 && !c.pin && c.up && matches!(content, Content::MatchViaList | Content::MatchNoList | Content::NoMatch) {
                         for big in 1..3u8 {
-                            v.push(Case { api: api.into(), cfg: c.clone(), content, memory_store, prf, unknown_type: false, empty_list: false, fault: 0, big, sloppy: false });
+                            v.push(Case { api: api.into(), cfg: c.clone(), content, memory_store, prf, unknown_type: false, empty_list: false, fault: 0, big, sloppy: false, slow: 0 });
                         }
                     }
                     if matches!(content, Content::NoMatch | Content::MatchNoList | Content::TwoNoList) {
-                        v.push(Case { api: api.into(), cfg: c.clone(), content, memory_store, prf, unknown_type: false, empty_list: true, fault: 0, big: 0, sloppy: false });
+                        v.push(Case { api: api.into(), cfg: c.clone(), content, memory_store, prf, unknown_type: false, empty_list: true, fault: 0, big: 0, sloppy: false, slow: 0 });
                     }
                     if matches!(content, Content::MatchViaList | Content::OtherRpOnly | Content::TwoViaList) && !prf {
-                        v.push(Case { api: api.into(), cfg: c.clone(), content, memory_store, prf, unknown_type: true, empty_list: false, fault: 0, big: 0, sloppy: false });
+                        v.push(Case { api: api.into(), cfg: c.clone(), content, memory_store, prf, unknown_type: true, empty_list: false, fault: 0, big: 0, sloppy: false, slow: 0 });
                     }
                 }
             }
@@ -93,8 +104,8 @@ pub fn cases(tier: Tier) -> Vec<Case> {
         for presence_cap in [false, true] {
             for memory_store in [false, true] {
                 for prf in [false, true] {
-                    let cfg = C04Case { op: Op::Get, rk: false, up: true, uv: false, cap, presence_cap, outcome: 3, pin: false, arc_mutex: false, level: 0, uvreq: 0, ext: false, wire: 0, flip: false };
-                    v.push(Case { api: "get_info".into(), cfg, content: Content::NoMatch, memory_store, prf, unknown_type: false, empty_list: false, fault: 0, big: 0, sloppy: false });
+                    let cfg = C04Case { op: Op::Get, rk: false, up: true, uv: false, cap, presence_cap, outcome: 3, pin: false, arc_mutex: false, level: 0, uvreq: 0, ext: 0, wire: 0, flip: false };
+                    v.push(Case { api: "get_info".into(), cfg, content: Content::NoMatch, memory_store, prf, unknown_type: false, empty_list: false, fault: 0, big: 0, sloppy: false, slow: 0 });
                 }
             }
         }
@@ -172,9 +183,13 @@ where
             5 => UvOutcome::Err(0x2F),
             _ => UvOutcome::Err(0x30),
         },
-        yields: 0,
-        log,
+        yields: usize::from(c.slow != 0),
+        log: log.clone(),
     };
+    if c.slow != 0 {
+        let secs = SLOW_SECS[(c.slow as usize - 1) % SLOW_SECS.len()];
+        log.set_prompt_hook(Arc::new(move || crate::core::clock::advance(secs)));
+    }
     let mut auth = Authenticator::new(Aaguid::from(*b"harness-aaguid-0"), store, uv);
     if c.prf {
         auth = auth.hmac_secret(HmacSecretConfig::new_without_uv().enable_on_make_credential());
@@ -469,6 +484,7 @@ pub fn space(tier: Tier) -> Space {
 }
 
 pub fn run(ctx: &Ctx) -> Result<Run, String> {
+    crate::core::clock::self_test()?;
     let sp = space(ctx.tier);
     let n = sp.len();
     let cfg = IsoConfig { prop: "C18".into(), mode: "diff".into(), tier: ctx.tier.name(), workers: ctx.threads, segment: (n / (ctx.threads * 4)).max(50), every: 25, stack_mb: 8 };
@@ -485,7 +501,7 @@ pub fn run(ctx: &Ctx) -> Result<Run, String> {
     }
     let mut run = Run::from_stats(
         "model_checking",
-        "differential enumeration: every configuration of the C04 product at CTAP2 level (operation, rk/up/uv, verification capability, validation outcome, pin-auth) x 4 store contents x {contract store, Arc<Mutex<MemoryStore>>} x PRF extension on/off x descriptor type {public-key, unknown}, store failures of find / save / update with seven status *values* (incl. Ctap1(Success), which shares byte 0x00 with Ctap2(Ok)), a sloppy store that lists every credential of the RP whatever ids are asked for, user handles / user ids of 900 and 4000 bytes (responses beyond 1 KiB / 4 KiB), and getInfo for every capability combination, plus all pairs (thorough: triples) of operations on ONE authenticator with a capability change in between (verification / presence / store capability), each run once through the inherent method and once through <Authenticator as Ctap2Api> on identically seeded authenticators inside isolated worker processes (8 MiB stack, 30 s watchdog); compared: result (status byte or full response incl. RFC 6979 signature bytes; fresh ids/keys normalised), store snapshot, store/user-validation call log. Non-trivial = distinct case whose direct call reached a verdict",
+        "differential enumeration: every configuration of the C04 product at CTAP2 level (operation, rk/up/uv, verification capability, validation outcome, pin-auth) x 4 store contents x {contract store, Arc<Mutex<MemoryStore>>} x PRF extension on/off x descriptor type {public-key, unknown}, store failures of find / save / update with seven status *values* (incl. Ctap1(Success), which shares byte 0x00 with Ctap2(Ok)), a sloppy store that lists every credential of the RP whatever ids are asked for, user handles / user ids of 900 and 4000 bytes (responses beyond 1 KiB / 4 KiB), a slow user (the user step suspends once and the thread's clock - virtual, the harness's own clock_gettime - advances by 11 s, 31 s, an hour, 25 hours while it is pending), and getInfo for every capability combination, plus all pairs (thorough: triples) of operations on ONE authenticator with a capability change in between (verification / presence / store capability), each run once through the inherent method and once through <Authenticator as Ctap2Api> on identically seeded authenticators inside isolated worker processes (8 MiB stack, 30 s watchdog); compared: result (status byte or full response incl. RFC 6979 signature bytes; fresh ids/keys normalised), store snapshot, store/user-validation call log. Non-trivial = distinct case whose direct call reached a verdict",
         true,
         stats,
     );
